@@ -386,7 +386,8 @@ def substances_used(ctx):
                 srcs = data_sources(v)
                 keys = {getattr(n, 'pkey', None) for n in srcs} | {n.name for n in srcs if isinstance(n, Ref)}
                 pre = any(k and k.startswith('step.to[0]') for k in keys)
-                post = any(k and (k.startswith('step.to[1]') or k.startswith('self.results[')) for k in keys)
+                post = any(k and k.startswith('step.to[1]') for k in keys) or \
+                    any(isinstance(n, Ref) and n.name.startswith('self.results[') for n in srcs)
                 descr.append(f"{show(v, 40)} <- pre: {pre}, post: {post}")
                 if not (pre and post):
                     ok = False
